@@ -9,7 +9,7 @@
 
    Trace file (JSON, path in the environment variable TRACE_FILE): a list of traces, a trace is a
    list of events
-     [op |-> "new", kind, pos, r, w, h, rot]   [op |-> "pos", pos]   [op |-> "rot", rot]   [op |-> "rad", r]
+     [op |-> "new", kind, pos, r, w, h, rot]   [op |-> "pos", pos]   [op |-> "rel", d]   [op |-> "rot", rot]   [op |-> "rad", r]
      [op |-> "query", pts |-> <<<<i, j>>, ...>> (sixteenths), got |-> <<0 or 1, ...>>]
    with numbers of Q(sqrt3) as triples.                                                         *)
 EXTENDS Geometry, IOUtils
@@ -36,6 +36,7 @@ Verdict(s, ev, t, i) == LET B == BadQueries(s, ev)
 Apply(s, ev) ==
    CASE ev.op = "new" -> [kind |-> ev.kind, pos |-> P3(ev.pos), r |-> Q3(ev.r), w |-> Q3(ev.w), h |-> Q3(ev.h), rot |-> ev.rot]
      [] ev.op = "pos" -> [s EXCEPT !.pos = P3(ev.pos)]
+     [] ev.op = "rel" -> [s EXCEPT !.pos = PAdd(@, P3(ev.d))]            \* move_by_relative_coordinate(d)
      [] ev.op = "rot" -> [s EXCEPT !.rot = ev.rot]
      [] ev.op = "rad" -> [s EXCEPT !.r = Q3(ev.r)]
      [] OTHER -> s
